@@ -191,7 +191,7 @@ def oracle(h):
                 elif integ == "low" and mtype == "4":
                     cls = "D11-seqreset-any"
                 elif integ == "low" and before["st"] == 12:
-                    cls = "D10-dup-during-resend"
+                    cls = "D28-low-tolerated-while-awaiting"
                 cls = cls or jcls
                 logouts = [w for w in wires if w[0] == "5"]
                 want_logout = integ in ("badcomp", "noseq", "low")
